@@ -2,6 +2,8 @@
 # scripts/check.sh <ID> <quick|thorough|replay> [replay-file]
 # Rebuilds the check binary from /repo's working tree (replace directive + Go build cache)
 # with the verif tag and runs one check. Exit 0 held / 1 violation / 2 tool error.
+# Checks that use the controlled scheduler (engine E3) run from an instrumented binary: the
+# library sources are rewritten at check time (cmd/instr) and compiled through -overlay.
 set -u
 cd "$(dirname "$0")/.."
 . scripts/env.sh
@@ -9,7 +11,17 @@ export VERIF_ROOT="$(pwd)"
 ID="$1"; TIER="${2:-quick}"; shift; shift || true
 mkdir -p .work/bin
 BIN=".work/bin/check.$$"
-trap 'rm -f "$BIN"' EXIT
+IBIN=".work/bin/check-instr.$$"
+trap 'rm -f "$BIN" "$IBIN"' EXIT
+case "$ID" in
+  C10|C18)
+    scripts/build_instr.sh "$IBIN" || { echo "tool error: instrumented build failed" >&2; exit 2; }
+    "$IBIN" "$ID" "$TIER" "$@"
+    exit $? ;;
+  C16|C08)
+    scripts/build_instr.sh "$IBIN" || { echo "tool error: instrumented build failed" >&2; exit 2; }
+    export VERIF_INSTR_BIN="$(pwd)/$IBIN" ;;
+esac
 go build -tags verif -o "$BIN" ./cmd/check || { echo "tool error: build failed" >&2; exit 2; }
 "$BIN" "$ID" "$TIER" "$@"
 exit $?
